@@ -5,22 +5,59 @@ import CifModel.Props.C12Lex
   Props/C12Chars (group gC) — property C12 at CHARACTER level: corollaries of the token-level class theorems (Props/C12, group gJ;
   Props/C12Lex, group gH), obtained with the lexical glue of Lemmas/LexGlue (group gE) and Lemmas/DefectChars.
 
-  Setting of every theorem: the text is `renderChunks cs` for ANY accepted chunk list `cs` (`okC`: every token in any admissible
-  presentation, any whitespace and comments between the tokens, Lemmas/LexGlue) whose lines fit (`linesFit`, ≤ 2048 characters),
-  whose first character is acceptable and is not a byte-order mark, and whose TOKENS are: well-formed data blocks `preB`, the
-  header of the block with the defect, a well-formed run, the defective construct, a well-formed run, well-formed blocks `postB`.
+  Setting of every theorem (`ItemHost` / `ElemHost` / `BlockHost`): the text is `renderChunks cs` for ANY accepted chunk list `cs`
+  (`okC`: every token in any admissible presentation, any whitespace and comments between the tokens — Lemmas/LexGlue) whose lines
+  fit (`linesFit`: ≤ 2048 characters), whose first character is acceptable and not a byte-order mark, and whose TOKENS are:
+  well-formed data blocks `preB`, the header of the block with the defect, a well-formed run `pre`, the tokens `D` of the defective
+  construct, a well-formed run `post`, well-formed data blocks `postB`.
 
-  Conclusion: `parse o acceptAll [] text` returns CIF_OK with EXACTLY ONE report, whose code is that of the class, and the content
-  is exactly that of the REPAIRED document.
+  Conclusion (`OneReport`): `parse o acceptAll [] text` returns CIF_OK having made EXACTLY ONE report, whose code is that of the class,
+  and the content is exactly what the REPAIRED document denotes.  No premise on the fuel: `fuelFor` covers every such text.
 
-  The class theorems are used through their statements only.
+  The class theorems are used through their statements only (the wrappers `block_defect_chars`, `items_class` take the statement of
+  the class theorem as a hypothesis).
+
+  NOT here yet: the LINE of the report.  The token-level statements describe the state at which the report is made by the tokens
+  it still feeds, which does not fix its line; once they expose the walk (`Reach`, Lemmas/ParserReach) the line follows from
+  `reach_line` / `reach_line_pending` and `posTok_snoc` of Lemmas/DefectChars: `posAfter 1 0` over the characters up to the end of
+  the token at which the parser notices the defect.
 -/
 namespace CifModel.Props
 open CifModel CifModel.Model CifModel.Model.Lexer CifModel.Model.Parser CifModel.Spec.Lexical CifModel.Spec.Grammar
 open CifModel.Gen.ErrCodes CifModel.Lemmas.LexGlue CifModel.Lemmas.DefectChars
 
+/-! ### the setting -/
+
+/-- the text: an accepted chunk list whose lines fit and whose first character cif_parse accepts silently -/
+structure TextOk (o : Opts) (cs : List Chunk) : Prop where
+  store : o.store = true
+  utf : o.notUtf8 = false
+  ok : okC o.dia .end_ [] cs
+  fit : linesFit 0 (renderChunks cs) = true
+  first : ∃ c rest, renderChunks cs = c :: rest ∧ disallowedInitial c = false ∧ (c == 0xFEFF) = false
+
+/-- the blocks around the block with the defect: well-formed, codes pairwise different (normalised) and different from `bc` -/
+structure BlocksOk (o : Opts) (preB postB : List Block) (bc : Str) : Prop where
+  mfd : o.maxFrameDepth ≠ 0
+  wfPreB : wfBlocks o preB [] = true
+  wfBc : wfCode bc = true
+  fresh : ∀ b ∈ preB, o.norm b.code ≠ o.norm bc
+  wfPostB : wfBlocks o postB (o.norm bc :: preB.map (fun b => o.norm b.code)) = true
+
+/-- a defect among the items of a data block: `D` = the tokens of the defective construct -/
+structure ItemHost (o : Opts) (cs : List Chunk) (preB postB : List Block) (bc : Str) (pre post : List Item) (D : List TokSpec) : Prop
+    extends TextOk o cs, BlocksOk o preB postB bc where
+  hToks : toks cs = blocksToks preB ++ ((.blockHead, bc) :: ((itemsToks pre ++ (D ++ itemsToks post)) ++ blocksToks postB))
+  wfRun : wfItems o pre [] = true
+
+/-- the outcome: CIF_OK, exactly one report, its code, the content of the repaired document -/
+def OneReport (o : Opts) (cs : List Chunk) (C : Code) (repaired : Doc) : Prop :=
+  ∃ r, parse o acceptAll [] (renderChunks cs) = { rc := 0, log := [r], cif := denote o.dia o.normKey repaired } ∧ r.code = C
+
 /-- a block whose body consists of items and loops only -/
 def plainBlock (code : Str) (its : List Item) : Block := { code := code, body := its.map .plain }
+
+/-! ### auxiliary -/
 
 theorem denoteElems_plain (dia : Dialect) (nk : Str → Str) : ∀ (its : List Item) (fs : List Container) (ls : List Loop),
     denoteElems dia nk (its.map .plain) fs ls = (fs, denoteItems dia nk its ls)
@@ -35,48 +72,132 @@ theorem denote_plain (dia : Dialect) (nk : Str → Str) (preB postB : List Block
       = denote dia nk preB ++ .mk code [] (denoteItems dia nk its []) :: denote dia nk postB := by
   simp [denote, denoteBlock, plainBlock, denoteElems_plain]
 
-/-- **C12_chars_missing_value** — in the items of a data block, a data name that is not followed by a value.  One report,
-    CIF_MISSING_VALUE; the content is that of the document in which the name has the unknown value `?`. -/
-theorem C12_chars_missing_value (o : Opts) (hstore : o.store = true) (hmfd : o.maxFrameDepth ≠ 0) (hutf : o.notUtf8 = false)
-    (cs : List Chunk) (c : CU) (rest : Str) (preB postB : List Block) (bc : Str) (pre post : List Item) (n : Str)
-    (seen2 bseen2 : List Str)
-    (hok : okC o.dia .end_ [] cs) (hfit : linesFit 0 (renderChunks cs) = true)
-    (hc : renderChunks cs = c :: rest) (hfirst : disallowedInitial c = false) (hbom : (c == 0xFEFF) = false)
-    (ht : toks cs = blocksToks preB ++ ((.blockHead, bc) :: ((itemsToks pre ++ ((.name, n) :: itemsToks post)) ++ blocksToks postB)))
-    (hpreB : wfBlocks o preB [] = true) (hcode : wfCode bc = true) (hnew : ∀ b ∈ preB, o.norm b.code ≠ o.norm bc)
-    (hpostB : wfBlocks o postB bseen2 = true) (hb2 : ∀ b ∈ preB, o.norm b.code ∈ bseen2) (hb2' : o.norm bc ∈ bseen2)
-    (hpre : wfItems o pre [] = true) (hname : wfName n = true)
-    (hfresh : o.norm n ∉ normNames o (denoteItems o.dia o.normKey pre []))
+/-- what the runs around a repaired construct `rep` leave has no empty loop -/
+theorem allPacked_run (o : Opts) (pre post rep : List Item) (seen2 : List Str) (hpre : wfItems o pre [] = true)
     (hpost : wfItems o post seen2 = true)
-    (hseen2 : ∀ k ∈ normNames o (denoteItems o.dia o.normKey (pre ++ [.item n .unk]) []), k ∈ seen2) :
+    (hrep : ∀ ls, allPacked ls → allPacked (denoteItems o.dia o.normKey rep ls)) :
+    allPacked (denoteItems o.dia o.normKey (pre ++ rep ++ post) []) := by
+  rw [denoteItems_append, denoteItems_append]
+  exact allPacked_denoteItems o post seen2 _ hpost (hrep _ (allPacked_denoteItems o pre [] [] hpre (by intro l hl; cases hl)))
+
+theorem allPacked_item (o : Opts) (n : Str) (v : Val) (ls : List Loop) (h : allPacked ls) :
+    allPacked (denoteItems o.dia o.normKey [.item n v] ls) := by
+  simp only [denoteItems]; exact allPacked_putScalar _ _ _ h
+
+theorem allPacked_loop (o : Opts) (ns : List Str) (ps : List (List Val)) (hps : ps ≠ []) (ls : List Loop) (h : allPacked ls) :
+    allPacked (denoteItems o.dia o.normKey [.loop ns ps] ls) := by
+  simp only [denoteItems]
+  intro l hl
+  rcases List.mem_append.mp hl with hl | hl
+  · exact h l hl
+  · simp only [List.mem_singleton] at hl
+    subst hl
+    cases ps with
+    | nil => exact absurd rfl hps
+    | cons p r => rfl
+
+theorem szEntries_len : ∀ (es : List (Str × Presentation × Val)), 2 * es.length ≤ szEntries es
+  | [] => Nat.le_refl _
+  | (_, _, v) :: es => by
+    have := szEntries_len es
+    have := szVal_pos v
+    simp only [szEntries, List.length_cons]
+    omega
+
+/-! ### the common frame of the item-level classes -/
+
+/-- `hstep` is the statement of the class theorem for the view of the block (`K`: what it asks of the fuel for `D`); `ls'`: the loops
+    the class theorem leaves in the block.  The container is pruned of empty loops when it ends (`pruneC`). -/
+theorem items_class {o : Opts} {cs : List Chunk} {preB postB : List Block} {bc : Str} {pre post : List Item} {D : List TokSpec}
+    (H : ItemHost o cs preB postB bc pre post D) (ls' : List Loop) (C : Code) (K : Nat) (hK : K ≤ 2 * D.length + 18)
+    (hstep : View o [o.norm bc] (fun x => denote o.dia o.normKey preB ++ [x]) bc →
+        ∀ (rest : List TokSpec) (s1 : PS) (w1 : W) (f : Nat), w1.cif = denote o.dia o.normKey preB ++ [.mk bc [] []] →
+        szItems pre + szItems post + K + 1 ≤ f → (∃ ty tx ts, rest = (ty, tx) :: ts ∧ isTerminator ty = true) →
+        Feeds o s1 (itemsToks pre ++ (D ++ (itemsToks post ++ rest))) →
+        ∃ s2 r, elemsLoop o (f + post.length + 1 + pre.length) s1 (some [o.norm bc]) true acceptAll w1
+            = elemsLoop o f s2 (some [o.norm bc]) true acceptAll
+                { log := r :: w1.log, cif := denote o.dia o.normKey preB ++ [.mk bc [] ls'] }
+          ∧ r.code = C ∧ Feeds o s2 rest) :
     ∃ r, parse o acceptAll [] (renderChunks cs)
         = { rc := 0, log := [r],
-            cif := denote o.dia o.normKey (preB ++ [plainBlock bc (pre ++ [.item n .unk] ++ post)] ++ postB) }
-      ∧ r.code = CIF_MISSING_VALUE := by
-  have hpk : allPacked (denoteItems o.dia o.normKey (pre ++ [.item n .unk] ++ post) []) := by
-    rw [denoteItems_append, denoteItems_append]
-    refine allPacked_denoteItems o post seen2 _ hpost ?_
-    simp only [denoteItems]
-    exact allPacked_putScalar _ _ _ (allPacked_denoteItems o pre [] [] hpre (by intro l hl; cases hl))
+            cif := denote o.dia o.normKey preB ++ pruneC (.mk bc [] ls') :: denote o.dia o.normKey postB }
+      ∧ r.code = C := by
+  obtain ⟨c, rest, hc, hfirst, hbom⟩ := H.first
   have hsz1 := (Lemmas.WriterChunks.szItems_toks pre)
   have hsz2 := (Lemmas.WriterChunks.szItems_toks post)
-  obtain ⟨r, h, hr⟩ := block_defect_chars o hstore hmfd hutf cs c rest preB postB bc
-    (itemsToks pre ++ ((.name, n) :: itemsToks post)) [] (denoteItems o.dia o.normKey (pre ++ [.item n .unk] ++ post) [])
-    CIF_MISSING_VALUE (post.length + 1 + pre.length) (szItems pre + szItems post + 1) bseen2 hok hfit hc hfirst hbom ht hpreB hcode hnew
-    hpostB hb2 hb2'
-    (by simp only [List.length_append, List.length_cons]; omega)
-    (by
-      intro rest1 s1 w1 f hw1 hf hfol hF1
-      have hv := View.block o (denote o.dia o.normKey preB) bc (by
-        intro x hx
-        obtain ⟨b, hb, hcb⟩ := denote_code hx
-        simp only [codeIs, hcb, beq_eq_false_iff_ne, ne_eq]
-        exact hnew b hb)
-      have := C12_missing_value o hv pre post n [] seen2 rest1 s1 f w1 [] [] true hw1 hpre (by intro k hk; simp [normNames] at hk)
-        hname hfresh hpost hseen2 hf (Or.inr (blockFollow_term hfol)) (fun _ => blockFollow_term hfol)
-        (by simpa [List.append_assoc] using hF1)
-      simpa [Nat.add_assoc] using this)
-  refine ⟨r, ?_, hr⟩
-  rw [h, denote_plain, pruneC_packed _ _ _ hpk]
+  have hv := View.block o (denote o.dia o.normKey preB) bc (by
+    intro x hx
+    obtain ⟨b, hb, hcb⟩ := denote_code hx
+    simp only [codeIs, hcb, beq_eq_false_iff_ne, ne_eq]
+    exact H.fresh b hb)
+  refine block_defect_chars o H.store H.mfd H.utf cs c rest preB postB bc (itemsToks pre ++ (D ++ itemsToks post)) [] ls' C
+    (post.length + 1 + pre.length) (szItems pre + szItems post + K + 1) _ H.ok H.fit hc hfirst hbom H.hToks H.wfPreB H.wfBc H.fresh
+    H.wfPostB (fun b hb => List.mem_cons_of_mem _ (List.mem_map.mpr ⟨b, hb, rfl⟩)) List.mem_cons_self
+    (by simp only [List.length_append]; omega) ?_
+  intro rest1 s1 w1 f hw1 hf hfol hF1
+  have := hstep hv rest1 s1 w1 f hw1 hf (blockFollow_term hfol) (by simpa [List.append_assoc] using hF1)
+  simpa [Nat.add_assoc] using this
+
+/-- … when the class theorem leaves what the items `its` denote and no loop is empty: the repaired document has `its` as the body -/
+theorem items_class_doc {o : Opts} {cs : List Chunk} {preB postB : List Block} {bc : Str} {pre post : List Item} {D : List TokSpec}
+    (H : ItemHost o cs preB postB bc pre post D) (its : List Item) (C : Code) (K : Nat) (hK : K ≤ 2 * D.length + 18)
+    (hpk : allPacked (denoteItems o.dia o.normKey its []))
+    (hstep : View o [o.norm bc] (fun x => denote o.dia o.normKey preB ++ [x]) bc →
+        ∀ (rest : List TokSpec) (s1 : PS) (w1 : W) (f : Nat), w1.cif = denote o.dia o.normKey preB ++ [.mk bc [] []] →
+        szItems pre + szItems post + K + 1 ≤ f → (∃ ty tx ts, rest = (ty, tx) :: ts ∧ isTerminator ty = true) →
+        Feeds o s1 (itemsToks pre ++ (D ++ (itemsToks post ++ rest))) →
+        ∃ s2 r, elemsLoop o (f + post.length + 1 + pre.length) s1 (some [o.norm bc]) true acceptAll w1
+            = elemsLoop o f s2 (some [o.norm bc]) true acceptAll
+                { log := r :: w1.log, cif := denote o.dia o.normKey preB ++ [.mk bc [] (denoteItems o.dia o.normKey its [])] }
+          ∧ r.code = C ∧ Feeds o s2 rest) :
+    OneReport o cs C (preB ++ [plainBlock bc its] ++ postB) := by
+  obtain ⟨r, h, hr⟩ := items_class H _ C K hK hstep
+  exact ⟨r, by rw [h, denote_plain, pruneC_packed _ _ _ hpk], hr⟩
+
+theorem nil_seen (o : Opts) : ∀ k ∈ normNames o [], k ∈ ([] : List Str) := by
+  intro k hk; simp [normNames] at hk
+
+/-! ### the classes of Props/C12 (group gJ) -/
+
+/-- **C12_chars_missing_value** — in the items of a data block, a data name that is not followed by a value.  One report,
+    CIF_MISSING_VALUE; the content is that of the document in which the name has the unknown value `?`. -/
+theorem C12_chars_missing_value (o : Opts) (cs : List Chunk) (preB postB : List Block) (bc : Str) (pre post : List Item) (n : Str)
+    (seen2 : List Str) (H : ItemHost o cs preB postB bc pre post [(.name, n)])
+    (hname : wfName n = true) (hfresh : o.norm n ∉ normNames o (denoteItems o.dia o.normKey pre []))
+    (hpost : wfItems o post seen2 = true)
+    (hseen2 : ∀ k ∈ normNames o (denoteItems o.dia o.normKey (pre ++ [.item n .unk]) []), k ∈ seen2) :
+    OneReport o cs CIF_MISSING_VALUE (preB ++ [plainBlock bc (pre ++ [.item n .unk] ++ post)] ++ postB) :=
+  items_class_doc H _ CIF_MISSING_VALUE 0 (by simp)
+    (allPacked_run o pre post _ seen2 H.wfRun hpost (allPacked_item o n .unk))
+    (fun hv rest1 s1 w1 f hw1 hf hterm hF1 =>
+      C12_missing_value o hv pre post n [] seen2 rest1 s1 f w1 [] [] true hw1 H.wfRun (nil_seen o)
+        hname hfresh hpost hseen2 (by omega) (Or.inr hterm) (fun _ => hterm) (by simpa using hF1))
+
+/-- **C12_chars_unexpected_value** — a value (of any kind and depth) where an item is expected, not directly behind a loop.  One
+    report, CIF_UNEXPECTED_VALUE; the content is that of the document without the value. -/
+theorem C12_chars_unexpected_value (o : Opts) (cs : List Chunk) (preB postB : List Block) (bc : Str) (pre post : List Item) (v : Val)
+    (seen2 : List Str) (H : ItemHost o cs preB postB bc pre post (valToks v))
+    (hnoloop : lastIsLoop pre = false) (hwv : wfVal o v = true) (hpost : wfItems o post seen2 = true)
+    (hseen2 : ∀ k ∈ normNames o (denoteItems o.dia o.normKey pre []), k ∈ seen2) :
+    OneReport o cs CIF_UNEXPECTED_VALUE (preB ++ [plainBlock bc (pre ++ post)] ++ postB) :=
+  items_class_doc H _ CIF_UNEXPECTED_VALUE (szVal v) (by rw [Lemmas.WriterChunks.szVal_toks]; omega)
+    (by simpa using allPacked_run o pre post [] seen2 H.wfRun hpost (fun _ h => h))
+    (fun hv rest1 s1 w1 f hw1 hf hterm hF1 =>
+      C12_unexpected_value o hv pre post v [] seen2 rest1 s1 f w1 [] [] true hw1 H.wfRun (nil_seen o) hnoloop hwv hpost hseen2
+        (by omega) (fun _ => hterm) hF1)
+
+/-- **C12_chars_dup_itemname** — a data name whose normalised form is already defined in the block (as a scalar or in a loop, in any
+    spelling), with its value.  One report, CIF_DUP_ITEMNAME; the content is that of the document without the second item. -/
+theorem C12_chars_dup_itemname (o : Opts) (cs : List Chunk) (preB postB : List Block) (bc : Str) (pre post : List Item) (n : Str)
+    (v : Val) (seen2 : List Str) (H : ItemHost o cs preB postB bc pre post ((.name, n) :: valToks v))
+    (hname : wfName n = true) (hdup : o.norm n ∈ normNames o (denoteItems o.dia o.normKey pre []))
+    (hwv : wfVal o v = true) (hpost : wfItems o post seen2 = true)
+    (hseen2 : ∀ k ∈ normNames o (denoteItems o.dia o.normKey pre []), k ∈ seen2) :
+    OneReport o cs CIF_DUP_ITEMNAME (preB ++ [plainBlock bc (pre ++ post)] ++ postB) :=
+  items_class_doc H _ CIF_DUP_ITEMNAME (szVal v) (by rw [Lemmas.WriterChunks.szVal_toks]; simp only [List.length_cons]; omega)
+    (by simpa using allPacked_run o pre post [] seen2 H.wfRun hpost (fun _ h => h))
+    (fun hv rest1 s1 w1 f hw1 hf hterm hF1 =>
+      C12_dup_itemname o hv pre post n v [] seen2 rest1 s1 f w1 [] [] true hw1 H.wfRun (nil_seen o) hname hdup hwv hpost hseen2
+        (by omega) (fun _ => hterm) hF1)
 
 end CifModel.Props
